@@ -54,7 +54,8 @@ class Inst:
         self.feats = dict(rec['cfg']['features']) if rec['cfg'] else {}
         nested = 'MOD' in (self.decl['vis'] or '') or self.decl.get('context') == 'fn'
         self.mod = '%s::%s' % (crate.name, self.id) + ('::inner' if nested else '')
-        self.enum_path = self.mod + '::E'
+        self.enum_name = self.decl.get('enum_name', 'E')
+        self.enum_path = self.mod + '::' + self.enum_name
         # the module that private items are private to (a function body is not a module)
         self.priv_mod = '%s::%s' % (crate.name, self.id) if self.decl.get('context') == 'fn' else self.mod
         sl = crate.by_module(self.mod)
